@@ -297,11 +297,13 @@ def numeric_truthiness_sites(repo, in_scope=None):
     return out, examined
 
 
-def check_zero_is_a_value(ctx, rule, what, in_scope, floor=3):
+def check_zero_is_a_value(ctx, rule, what, in_scope, floor=3, kinds=('int', 'float')):
     """No number of the given scope is tested by truthiness (a zero timestamp, lifespan, generation ... is a value)."""
     sites, examined = numeric_truthiness_sites(ctx.repo, in_scope)
     seen = set()
     for f, n, t, k in sites:
+        if k not in kinds:
+            continue
         key = 'zero-is-a-value:%s:%s' % (f.qual, norm(t)[:50])
         if key in seen:
             continue
@@ -497,3 +499,10 @@ def ms_to_s_term_ok(t, path, group_pattern):
         if a.text == "',' not in %s" % g and v is True:
             return True
     return False
+
+
+def cparams(f):
+    """parameter names as the PATH terms spell them: the pinned names when the function existed on the pinned tree with the same arity
+    (a renamed parameter does not change the terms), else the names in the source"""
+    from ..sim import _canon_params
+    return _canon_params(f) or f.params()
